@@ -466,10 +466,10 @@ func Build(L Layout, base [][]Item, rev2page1 []Item, rev3page []Item) ([]byte, 
 
 	// later revisions re-write existing objects: collected as (provisional id -> new node content)
 	type rewrite struct {
-		rev int
-		id  int
-		val pdfw.Obj
-		stm *pdfw.Stream
+		rev    int
+		id     int
+		val    pdfw.Obj
+		stm    *pdfw.Stream
 		lenRef int
 	}
 	var rewrites []rewrite
@@ -569,7 +569,28 @@ func Build(L Layout, base [][]Item, rev2page1 []Item, rev3page []Item) ([]byte, 
 				members[i], members[j] = members[j], members[i]
 			}
 		}
-		if len(members) > 0 {
+		if L.ObjStm == "split" {
+			// two containers: the integers (stream lengths given by reference) in one of their own, whose /Length is
+			// itself given by reference to a plain object - a reader meets that container for the first time while it
+			// resolves a content stream's length
+			var ints, rest []pdfw.Member
+			for _, m := range members {
+				if _, ok := m.Val.(pdfw.Int); ok {
+					ints = append(ints, m)
+				} else {
+					rest = append(rest, m)
+				}
+			}
+			if len(rest) > 0 {
+				items = append(items, pdfw.Item{Num: next, IsObjStm: true, Members: rest})
+				next++
+			}
+			if len(ints) > 0 {
+				items = append(items, pdfw.Item{Num: next + 1, Val: pdfw.LenOfObjStm{Num: next}},
+					pdfw.Item{Num: next, IsObjStm: true, Members: ints, StmLenRef: next + 1})
+				next += 2
+			}
+		} else if len(members) > 0 {
 			items = append(items, pdfw.Item{Num: next, IsObjStm: true, Members: members, FlateStm: L.ObjStm == "dictsflate"})
 			next++
 		}
